@@ -343,7 +343,7 @@ def main():
              "kind_free_text": "explicit-state search over operation histories: each state is rebuilt by replaying its shortest history on a fresh context, canonical dump -> dedup, invariant + model comparison in every state"},
         ],
         "checks": checks,
-        "notes": "All checks rebuild /repo's working tree (build/asan, -DBLOC_VERIF, clang ASan+UBSan) before running. KNOWN_FINDINGS.txt lists recorded findings and repaired defects.",
+        "notes": "All checks rebuild /repo's working tree (build/asan, -DBLOC_VERIF, clang ASan+UBSan through harness/cxxwrap, which compiles a unit that clang refuses and gcc accepts with gcc) before running. KNOWN_FINDINGS.txt lists recorded findings and repaired defects.",
         "not_applicable": na,
     }
     with open(os.path.join(HERE, "MANIFEST.json"), "w") as f:
